@@ -168,6 +168,15 @@ def _check_variations(ctx: Ctx) -> None:
     if not ok_iter:
         ctx.violation('C05.d', q, 'variation loop iterates over `%s`, not directly over params.get_unpacked_params_list()'
                       % norm(loop.iter), fn.path, loop.lineno, operand='iter')
+    # the per-variation counts are kept in the attribute that the public `runned_reps` property hands out
+    rp = M.lookup_property(M.cls('SimulationRunner'), 'runned_reps')
+    reps_attr = None
+    if rp is not None and rp[0] is not None:
+        rr = [n.value for n in walk_no_nested(rp[0].node) if isinstance(n, ast.Return) and n.value is not None]
+        if len(rr) == 1:
+            reps_attr = is_self_attr(rr[0], rp[0].self_name or 'self')
+    if reps_attr is None:
+        ctx.error('C05.d: the attribute behind the runned_reps property is not recognised (cannot tell)')
     # straight-line body: sequence of the three events
     events = []
     straight = True
@@ -180,7 +189,7 @@ def _check_variations(ctx: Ctx) -> None:
         for c in [n for n in ast.walk(s) if isinstance(n, ast.Call) and isinstance(n.func, ast.Attribute)]:
             if c.func.attr == '_simulate_for_current_params_serial':
                 events.append(('simulate', c))
-            elif c.func.attr == 'append' and norm(c.func.value) == '%s._runned_reps' % sn:
+            elif c.func.attr == 'append' and is_self_attr(c.func.value, sn) == reps_attr:
                 events.append(('count', c))
             elif c.func.attr == 'append_all_results' and norm(c.func.value) == '%s.results' % sn:
                 events.append(('results', c))
@@ -279,6 +288,8 @@ def _check_axis_order(ctx: Ctx) -> None:
                 return 'set'
             if f == 'map' and len(e.args) == 2:
                 return order_of(e.args[1], depth + 1)
+            if f in ('OrderedDict', 'dict', 'collections.OrderedDict') and len(e.args) == 1 and not e.keywords:
+                return order_of(e.args[0], depth + 1)       # a mapping filled from an ordered sequence of pairs keeps that order
             if isinstance(e.func, ast.Attribute) and e.func.attr in ('keys', 'values', 'items') and not e.args:
                 return order_of(e.func.value, depth + 1)
             return None
